@@ -254,6 +254,37 @@ func bump(o *obj) { o.Size++ }
 
 func (c *C) UpdatePod(oldPod, newPod *obj) { newPod.Size = 1 }
 
+// lazily initialised field: written inside once.Do, read after a call that went through it
+type L struct {
+	init sync.Once
+	cl   *int
+}
+
+func (l *L) connect() {
+	l.init.Do(func() { v := 1; l.cl = &v })
+}
+
+func (l *L) Use() int {
+	l.connect()
+	return *l.cl
+}
+
+// the Once removed: check-then-set
+type L2 struct{ cl *int }
+
+func (l *L2) connect() {
+	if l.cl != nil {
+		return
+	}
+	v := 1
+	l.cl = &v
+}
+
+func (l *L2) Use() int {
+	l.connect()
+	return *l.cl
+}
+
 func (t *T) Loop(ks []string) {
 	for _, k := range ks {
 		t.mu.Lock()
@@ -288,10 +319,12 @@ func analyseMini(t *testing.T) (*analysis, map[string]heldSet) {
 	keyedWrappers = map[string]bool{"lockKey": true}
 	fz := frozen
 	trackedTypes = map[string]*typeSpec{
-		"mini.T": {fields: map[string]guard{"m": lk("mini.T.mu"), "late": lk("once:mini.T.once")}, others: &fz},
-		"mini.E": {fields: map[string]guard{"n": lk("mini.E.Mutex")}},
+		"mini.T":  {fields: map[string]guard{"m": lk("mini.T.mu"), "late": lk("once:mini.T.once")}, others: &fz},
+		"mini.E":  {fields: map[string]guard{"n": lk("mini.E.Mutex")}},
+		"mini.L":  {fields: map[string]guard{"cl": lk("once:mini.L.init")}},
+		"mini.L2": {fields: map[string]guard{"cl": lk("once:mini.L2.init")}},
 	}
-	lockFields = map[string]bool{"mini.T.mu": true, "mini.T.rw": true, "mini.T.once": true}
+	lockFields = map[string]bool{"mini.T.mu": true, "mini.T.rw": true, "mini.T.once": true, "mini.L.init": true}
 	a, err := analyseAll(dir, []string{"mini"})
 	if err != nil {
 		t.Fatal(err)
@@ -544,5 +577,45 @@ func TestKeyedPools(t *testing.T) {
 	}
 	if !cyc {
 		t.Errorf("reversed order not visible in the nestings: %v", ns)
+	}
+}
+
+func TestLazyInit(t *testing.T) {
+	a, entry := analyseMini(t)
+	ok := func(ac access) bool {
+		h := toSet(ac.held)
+		for l, m := range entry[ac.fn] {
+			if h[l] != "excl" {
+				h[l] = m
+			}
+		}
+		once := "once:" + strings.TrimSuffix(ac.field, ".cl") + ".init"
+		if ac.kind == "write" {
+			return h[once] == "excl"
+		}
+		return h[once] != ""
+	}
+	bad := map[string]int{}
+	n := 0
+	for _, ac := range a.accesses {
+		if strings.HasSuffix(ac.field, ".cl") {
+			n++
+			if !ok(ac) {
+				bad[ac.fn+":"+ac.kind]++
+			}
+		}
+	}
+	if n < 5 {
+		t.Fatalf("only %d accesses of the lazily initialised fields", n)
+	}
+	for k := range bad {
+		if strings.HasPrefix(k, "mini.L.") {
+			t.Errorf("Once-guarded lazy field reported unguarded: %s", k)
+		}
+	}
+	for _, want := range []string{"mini.L2.connect:write", "mini.L2.connect:read", "mini.L2.Use:read"} {
+		if bad[want] == 0 {
+			t.Errorf("Once removed: %s not reported (bad = %v)", want, bad)
+		}
 	}
 }
